@@ -155,8 +155,12 @@ func TestC01Table(t *testing.T) {
 		if i%sn != si {
 			continue
 		}
-		c := &Case{Prop: "C01", Kind: "table", Vars: map[string]lang.Value{}, Obj: &eng.ObjSpec{Mode: "map"}, NoOpt: i%2 == 1}
-		if (i/4)%2 == 1 {
+		// optimizer setting and object mode are decorrelated from the cell
+		// order (provenances rotate with the cell number; a plain alternation
+		// would tie "literal" to "optimized" for ever)
+		mix := evid.Digest(fmt.Sprint("cell", i))
+		c := &Case{Prop: "C01", Kind: "table", Vars: map[string]lang.Value{}, Obj: &eng.ObjSpec{Mode: "map"}, NoOpt: mix&1 == 1}
+		if mix&2 == 2 {
 			c.Obj.Mode = "struct"
 		}
 		m := lang.NewMachine()
